@@ -64,6 +64,8 @@ func ruleSnapAtomic() *Rule {
 		Run: func(p *Program) []Obligation {
 			obs := newObSet("SNAP-ATOMIC")
 			snapNew(p, obs)
+			encodedFromParams(p, obs, "(*persistentSnapshotStorage).NewSnapshotFile", "encodeMetadata",
+				map[string]string{"LastIncludedIndex": "lastIncludedIndex", "LastIncludedTerm": "lastIncludedTerm", "Configuration": "configuration"})
 			snapClose(p, obs)
 			snapDiscard(p, obs)
 			return obs.list()
